@@ -64,12 +64,14 @@ CONFIGS = {
             dict(name="formatters", Starts="{0}", MaxRanges=1, Styles=ALL_STYLES, Prefixes='{""}',
                  Sts="{1, 2, 3, 4, 5, 6, 7, 8, 9, 10, 11, 12, 13, 14, 15, 16, 17, 18, 19, 20, 21, 22, 23, 24, 25, 26, 27, 28, 29, 30}", P=61),
             dict(name="formatters-high", Starts="{0}", MaxRanges=1, Styles='{"R", "r", "A", "a", "D"}', Prefixes='{""}',
-                 Sts="{95, 396, 889, 1987, 2990, 3890, 3990, 674, 700, 18250}", P=100),
+                 Sts="{95, 396, 889, 1987, 2990, 3890}", P=100),
+            dict(name="letters-high", Starts="{0}", MaxRanges=1, Styles='{"A", "a", "D"}', Prefixes='{""}',
+                 Sts="{674, 700, 18250}", P=60),
             dict(name="ranges", Starts="{0, 1, 2, 4}", MaxRanges=3, Styles='{"D", "r", "a", "none"}', Prefixes='{"", "p-"}',
                  Sts="{1, 26}", P=7),
         ],
-        "nametree": [dict(NKeys=6, Depth=3, Fan=3, TreeKeySeqs="<- SomeSeq6", DictKeySets="<- DictSets3", HasTree="<- Bools", HasDict="<- Bools"),
-                     dict(NKeys=5, Depth=3, Fan=3, TreeKeySeqs="<- KeySeqs5", DictKeySets="<- DictSets1", HasTree="<- OnlyTrue", HasDict="<- Bools")],
+        "nametree": [dict(NKeys=6, Depth=2, Fan=3, TreeKeySeqs="<- SomeSeq6", DictKeySets="<- DictSets3", HasTree="<- Bools", HasDict="<- Bools"),
+                     dict(NKeys=5, Depth=3, Fan=2, TreeKeySeqs="<- KeySeqs5", DictKeySets="<- DictSets1", HasTree="<- OnlyTrue", HasDict="<- Bools")],
         "outline": [dict(MaxItems=6, Targets='{"Dest", "none"}'), dict(MaxItems=5, Targets='{"Dest", "A", "none"}')],
         "text": [dict(name="bom", Alphabet="<- Alpha16", MaxLen=6, Prefixes="<- BomPrefix"),
                  dict(name="any", Alphabet="<- AlphaDocWide", MaxLen=4, Prefixes="<- NoPrefix")],
@@ -104,6 +106,27 @@ def guarded(site, fn, findings, detail, seconds=20):
         signal.signal(signal.SIGVTALRM, old)
         sys.setrecursionlimit(lim)
     return False, None
+
+
+MAX_FILED = 150
+
+
+def report(ck, key, what, replay):
+    """ck.violation, but after MAX_FILED unknown violations the rest are only counted (a broken tree fails tens of
+    thousands of replayed cases; one replay file each would fill the disk)"""
+    if not ck.is_known(key) and len(ck.violations) >= MAX_FILED:
+        ck.extra["violations_counted_but_not_filed"] = ck.extra.get("violations_counted_but_not_filed", 0) + 1
+        return True
+    return ck.violation(key, what, replay)
+
+
+def known_keys(pid):
+    import json as _json
+    p = os.path.join(os.path.dirname(os.path.dirname(os.path.dirname(os.path.abspath(__file__)))), "known_findings", pid + ".json")
+    try:
+        return {e["key"] for e in _json.load(open(p)) if e.get("status") == "known"}
+    except OSError:
+        return set()
 
 
 def proper_subsets(dev):
@@ -154,7 +177,7 @@ def fan_out(ck, kind, items, replay_of):
             for i, findings, d, n, nontrivial, sample in res:
                 drift += d
                 for key, what in findings:
-                    ck.violation(key, what, replay_of(items[i], i))
+                    report(ck, key, what, replay_of(items[i], i))
                 ck.case(n, (kind, i) if nontrivial else None)
                 ck.replayed += n
                 if sample is not None and not findings:
@@ -704,7 +727,8 @@ def replay(path):
         return 1
     for key, what in findings:
         print("  key=%s  %s" % (key, what))
-    same = [f for f in findings if f[0] == doc["key"]] or findings
+    known = known_keys("C17")
+    same = [f for f in findings if f[0] == doc["key"] or f[0] not in known]
     if same:
         print("VIOLATION property=C17 replay=%s" % path)
     return 1 if same else 0
